@@ -157,4 +157,9 @@ theorem spec_off_curve (hp : p % 4 = 3) (A B a : ZMod p) (hB : B ≠ 0)
     exact (mul_eq_zero.1 this).resolve_left (two_ne_zero' hp)
 
 end ZModP
+
+/-- for the non-vacuity examples -/
+theorem prime7 : Fact (Nat.Prime 7) := ⟨by decide⟩
+theorem prime11 : Fact (Nat.Prime 11) := ⟨by decide⟩
+
 end Bee2V.C06.SWU
